@@ -199,6 +199,10 @@ pub fn run_one(tier: &str, check: &str, seed: u64, tmp: &Path, log: Option<&mut 
             let evs = crate::t4::generate_for(seed, check);
             with_runtime(crate::t4::run_events(seed, &evs, tmp, "g"))
         }
+        "t12c" => {
+            let script = crate::t12c::generate(seed);
+            with_runtime(crate::t12c::run_script(seed, &script))
+        }
         "t16" => {
             let (cfg, evs) = crate::t16::generate(seed);
             with_runtime(crate::t16::run_events(seed, cfg, &evs, tmp, "g"))
@@ -258,6 +262,17 @@ pub fn run_list(
                 .map(|e| serde_json::from_value(e.clone()))
                 .collect::<Result<_, _>>()?;
             with_runtime(crate::t4::run_events(seed, &evs, tmp, tag))
+        }
+        "t12c" => {
+            let conns: Vec<crate::t12c::Conn> = events
+                .iter()
+                .map(|e| serde_json::from_value(e.clone()))
+                .collect::<Result<_, _>>()?;
+            let script = crate::t12c::Script { snapshot_id: config.get("snapshot_id").and_then(|x| x.as_u64()).unwrap_or(0), conns };
+            if script.conns.is_empty() {
+                return Err(SimError::Harness("empty script".into()));
+            }
+            with_runtime(crate::t12c::run_script(seed, &script))
         }
         "t16" => {
             let cfg: crate::t16::Cfg = serde_json::from_value(config.clone())?;
